@@ -187,6 +187,36 @@ def c20Insc (args : List String) (impl : String) : String × String :=
     | _, _, _ => ("bad-op", "n/a")
   | _ => ("bad-op", "n/a")
 
+/-- `C20.reinsc <prefix> <ct1> <d1> <ct2> <d2>`: two inscriptions, the second made through the arguments parsed out of the
+first; impl `ok first=<p:c:d> second=<p:c:d>`.  In the model scripts are values, so each script parses to its own content. -/
+def c20Reinsc (args : List String) (impl : String) : String × String :=
+  match args with
+  | [p, c1, d1, c2, d2] =>
+    match unE? p, unE? c1, unE? d1, unE? c2, unE? d2 with
+    | some pre, some ct1, some da1, some ct2, some da2 =>
+      let show1 (s : Option Bytes) : String := match s with
+        | none => "err"
+        | some s => match Script.parseInscription s with
+          | some (.ok p c d) => s!"{hexE p}:{hexE c}:{hexE d}"
+          | _ => "err-*"
+      let m1 := show1 (inscriptionScript pre ct1 da1)
+      let pre2 := match (inscriptionScript pre ct1 da1).bind Script.parseInscription with
+        | some (.ok p _ _) => p | _ => pre
+      let m2 := show1 (inscriptionScript pre2 ct2 da2)
+      let model := s!"ok first={m1} second={m2}"
+      let f := impl.splitOn " "
+      let pred :=
+        if impl.startsWith "panic" then "false:panic"
+        else if !Script.isP2PKH pre then "true(prefix-not-p2pkh)"
+        else if fieldD f "first" != s!"{hexE pre}:{hexE ct1}:{hexE da1}" then
+          s!"false:first-inscription-no-longer-parses-to-its-content got={((fieldD f "first").take 60).toString}"
+        else if fieldD f "second" != s!"{hexE pre}:{hexE ct2}:{hexE da2}" then
+          s!"false:second-inscription-round-trip got={((fieldD f "second").take 60).toString}"
+        else "true"
+      (model, pred)
+    | _, _, _, _, _ => ("bad-op", "n/a")
+  | _ => ("bad-op", "n/a")
+
 /-- `C20.specific <txdesc> <inputIdx> <satIdx> <extraScript> <prefix> <ct> <data>`: impl `ok tx=<desc>` | `err-…` -/
 def c20Specific (args : List String) (impl : String) : String × String :=
   match args with
